@@ -7,14 +7,18 @@ import Glom.Model.C19Env
   case:
     "argv":  {"posargs":[…],"target_file":s|null,"target_format":s|null,"spec_file":s|null,
               "spec_format":s|null,"indent":n|null,"scalar":b}
-    "files": [[path, content|null]…]     (null = unreadable / missing)
-    "stdin": text, "tty": bool, "hostile": bool
+    "files": [[path, content|null|{"bytes":hex}|{"dir":true}]…]   (null = missing; bytes: written as they
+             are — not text when they are no UTF-8; dir: a directory of that name)
+    "stdin": text|{"bytes":hex}, "tty": bool, "hostile": bool
     "ext":   the trusted externals as tables computed by the harness with the real functions
              (values are opaque ids):
        "parse":[[kind,text,{"ok":id}|{"err":cls}]…]  "load":[[kind,text,{"ok":id}|{"err":cls}]…]
        "repr":[[text,repr]…]  "strspec":[[text,id]…]  "empty_spec":id  "empty_target":id
        "glom":[[tid,sid,{"ok":rid}|{"glomerror":[cls,msg]}|{"other":cls}]…]
        "dumps":[[rid,indent|null,{"ok":text}|{"err":cls}]…]  "scalar":[[rid,isScalar,str]…]
+       "read":[[path,{"ok":text}|{"err":cls}]…]   what `open(path).read()` gives (text mode) for every file of the case
+       "stdin_text":text|null, "stdin_err":cls|null   what `sys.stdin.read()` gives
+       "mro":[[cls,[names…]]…]   the MRO of every exception class named in the tables
     "impl":  {"outcome":{"exit":[code,stdout]}|{"usage":true}|{"exc":cls},"side_effect":b}
   A lookup that misses its table yields the class "<no-oracle>".
 -/
@@ -47,6 +51,8 @@ structure Tables where
   dumps : List (Nat × Option Int × Except String String)
   scalar : List (Nat × Bool × String)
   files : List (String × Option String)
+  readErr : List (String × String)
+  mro : List (String × List String)
 
 def triple (j : Json) : Except String (Json × Json × Json) := do
   match ← arr j with
@@ -89,14 +95,34 @@ def tablesOfJson (e files : Json) : Except String Tables := do
   let scalar ← (← arr (← e.getObjVal? "scalar")).mapM (fun row => do
     let (a, b, c) ← triple row
     return (← a.getNat?, ← b.getBool?, ← c.getStr?))
+  -- what reading each file gives: the oracle's table when present (undecodable bytes, directories),
+  -- else the content itself
+  let rd : List (String × Except String String) := match e.getObjVal? "read" with
+    | .ok (.arr rows) => rows.toList.filterMap (fun row => match row with
+        | .arr #[.str p, r] =>
+          if let .ok t := r.getObjValAs? String "ok" then some (p, .ok t)
+          else if let .ok c := r.getObjValAs? String "err" then some (p, .error c) else none
+        | _ => none)
+    | _ => []
   let fl ← (← arr files).mapM (fun row => do
     match ← arr row with
-    | [p, .null] => return (← p.getStr?, none)
-    | [p, c] => return (← p.getStr?, some (← c.getStr?))
+    | [p, c] =>
+      let p ← p.getStr?
+      match rd.find? (·.1 == p), c with
+      | some (_, .ok t), _ => return (p, some t)
+      | some (_, .error _), _ => return (p, none)
+      | none, .str t => return (p, some t)
+      | none, _ => return (p, none)
     | _ => throw "bad files row")
+  let readErr := rd.filterMap (fun r => match r.2 with | .error c => some (r.1, c) | .ok _ => none)
+  let mro : List (String × List String) := match e.getObjVal? "mro" with
+    | .ok (.arr rows) => rows.toList.filterMap (fun row => match row with
+        | .arr #[.str c, .arr ns] => some (c, ns.toList.filterMap (fun n => n.getStr?.toOption))
+        | _ => none)
+    | _ => []
   return { parse := parse, load := load, repr := repr, strspec := strspec,
            emptySpec := ← e.getObjValAs? Nat "empty_spec", emptyTarget := ← e.getObjValAs? Nat "empty_target",
-           glom := glom, dumps := dumps, scalar := scalar, files := fl }
+           glom := glom, dumps := dumps, scalar := scalar, files := fl, readErr := readErr, mro := mro }
 
 def lookup3 (t : List (String × String × Except String Nat)) (k x : String) : Except String Nat :=
   match t.find? (fun r => r.1 == k && r.2.1 == x) with
@@ -117,7 +143,25 @@ def extOf (t : Tables) : Ext Nat Nat Nat :=
       | some x => x.2.2 | none => .error "<no-oracle>"
     isScalar := fun r => match t.scalar.find? (·.1 == r) with | some x => x.2.1 | none => false
     str := fun r => match t.scalar.find? (·.1 == r) with | some x => x.2.2 | none => "<no-oracle>"
-    readFile := fun p => match t.files.find? (·.1 == p) with | some x => x.2 | none => none }
+    readFile := fun p => match t.files.find? (·.1 == p) with | some x => x.2 | none => none
+    readErr := fun p => match t.readErr.find? (·.1 == p) with | some x => x.2 | none => "FileNotFoundError"
+    mro := fun c => match t.mro.find? (·.1 == c) with
+      | some x => x.2
+      -- a file named nowhere in the case does not exist
+      | none => if c == "FileNotFoundError" then ["FileNotFoundError", "OSError", "Exception", "BaseException"] else [c] }
+
+/-- the trusted facts about the externals' failures (`LoadErrOk`, `ReadErrOk` of Lemmas/C19),
+    evaluated on this case's tables: every class a loader raised is an `Exception` subclass, every
+    failing read an OSError or a UnicodeError -/
+def isTextReadErrB (X : Ext Nat Nat Nat) (c : String) : Bool :=
+  (X.mro c).contains "Exception" && ((X.mro c).contains "OSError" || (X.mro c).contains "UnicodeError")
+
+def extFactsOk (t : Tables) (X : Ext Nat Nat Nat) (w : World) : Bool :=
+  t.load.all (fun r => match r.2.2 with
+    | .error c => c == "<no-oracle>" || (X.mro c).contains "Exception"
+    | .ok _ => true) &&
+  t.readErr.all (fun r => isTextReadErrB X r.2) &&
+  (match w.stdinErr with | some c => isTextReadErrB X c | none => true)
 
 def argvOfJson (j : Json) : Except String Argv := do
   let pos ← (← arr (← j.getObjVal? "posargs")).mapM (fun x => x.getStr?)
@@ -156,7 +200,11 @@ def expectTag : Expect → String
 def run (j : Json) : Except String Json := do
   let a ← argvOfJson (← j.getObjVal? "argv")
   let t ← tablesOfJson (← j.getObjVal? "ext") (← j.getObjVal? "files")
-  let w : World := ⟨← j.getObjValAs? String "stdin", ← j.getObjValAs? Bool "tty"⟩
+  let e ← j.getObjVal? "ext"
+  let stdinText : String := match j.getObjVal? "stdin" with
+    | .ok (.str s) => s
+    | _ => (e.getObjValAs? String "stdin_text").toOption.getD ""
+  let w : World := ⟨stdinText, ← j.getObjValAs? Bool "tty", (e.getObjValAs? String "stdin_err").toOption⟩
   let hostile := (j.getObjValAs? Bool "hostile").toOption.getD false
   let impl ← j.getObjVal? "impl"
   if let .ok true := impl.getObjValAs? Bool "clierror" then
@@ -169,7 +217,8 @@ def run (j : Json) : Except String Json := do
   let ex := expect X a w
   let holds := checkC19 X a w hostile ⟨implOut, side⟩
   let modelHolds := checkC19 X a w hostile (observe m)
-  let agree := canon m == canon implOut && !side
+  let factsOk := extFactsOk t X w
+  let agree := canon m == canon implOut && !side && factsOk
   let src := (if a.specFile.isSome then "spec:file" else "spec:argv") ++ "," ++
     (match a.posargs, a.targetFile with
      | [_, "-"], _ => "target:dash"
@@ -182,6 +231,8 @@ def run (j : Json) : Except String Json := do
     ("branch", ((if hostile then "hostile/" else "") ++ expectTag ex ++ "/" ++
       (match canon m with | .exit c _ => s!"exit{c}" | .usage _ => "usage" | .exc c => s!"exc-{c}") ++
       (if ex == .silent then "" else "/" ++ src) : String)),
-    ("why", (if agree then "" else "model outcome differs from the implementation's" : String))]
+    ("why", (if agree then "" else if !factsOk then
+        "a trusted fact about the externals does not hold on this case: a loader raised a class outside Exception, or a read failed with neither an OSError nor a UnicodeError"
+      else "model outcome differs from the implementation's" : String))]
 
 end Glom.C19.Driver
